@@ -428,6 +428,9 @@ def structure_function_vk(seperation, r0, L0):
                 * scipy.special.kv(5. / 6., (2 * numpy.pi * seperation) / L0))
             )
 
+    # x^(5/6) K_5/6(x) has a finite limit at 0 but evaluates as 0 * inf there; D(0) = 0
+    D_vk = numpy.where(numpy.equal(seperation, 0), 0., D_vk)[()]
+
     return D_vk
 
 
